@@ -15,6 +15,7 @@ RULE = {"C12": "exhaustive: every attribute name of StateMachine (public, privat
                "hierarchies (single / linear / diamond, 1-5 classes, overriding by state and by non-state) with k first and j "
                "default states after overriding.  Non-trivial = hierarchy with >=2 classes and >=1 override, or an exhaustive "
                "item; distinct = hash of the definition."}
+RULE["C12"] += '  Also: aliases of inherited states in child / grandchild / mix-in classes; every definition item once in natural and once in a shuffled order.'
 REQUIRED = {"C12": {"alias-of-inherited-state-rejected": 27, "forbidden-name-rejected": 100, "illegal-signature-rejected": 100, "legal-signature-accepted": 48,
                     "alias-rejected": 3, "outside-statemachine-rejected": 3, "direct-call-rejected": 50,
                     "hier-accepted": 100, "hier-no-first": 30, "hier-multiple-first": 30, "hier-multiple-default": 30,
